@@ -6,6 +6,7 @@ Also runs /verif/seeded/<id>/patch.diff changes (git-style diffs) the same way."
 import argparse, concurrent.futures as cf, json, os, shutil, subprocess, sys, tempfile, time
 HERE = os.path.dirname(os.path.dirname(os.path.abspath(__file__)))
 REPO = "/repo"
+SNAP = HERE
 
 def make_copy():
     d = tempfile.mkdtemp(prefix="verif-mut-")
@@ -37,12 +38,12 @@ def run_one(m, tier):
                 if src.count(x["old"]) != 1:
                     return m, None, f"extra pattern occurs {src.count(x['old'])} times", 0
                 open(path, "w").write(src.replace(x["old"], x["new"]))
-        env = dict(os.environ, VERIF_REPO=d, PYTHONDONTWRITEBYTECODE="1")
+        env = dict(os.environ, VERIF_REPO=d, PYTHONDONTWRITEBYTECODE="1", VERIF_VENV=os.path.join(HERE, ".venv"))
         t0 = time.time()
-        cmd = [os.path.join(HERE, "check"), m["property"], "--tier", tier, "--no-evidence"]
+        cmd = [os.path.join(SNAP, "check"), m["property"], "--tier", tier, "--no-evidence"]
         if m.get("only"):
             cmd += ["--only", m["only"]]
-        p = subprocess.run(cmd, cwd=HERE, env=env, capture_output=True, text=True, timeout=7200)
+        p = subprocess.run(cmd, cwd=SNAP, env=env, capture_output=True, text=True, timeout=7200)
         lines = [l for l in p.stdout.splitlines() if l.startswith(("VIOLATION", "INCONCLUSIVE", "HARNESS-ERROR", "KNOWN"))]
         return m, p.returncode, "; ".join(lines)[:400], time.time() - t0
     finally:
@@ -57,6 +58,11 @@ def main():
     ap.add_argument("--name")
     a = ap.parse_args()
     muts = json.load(open(os.path.join(HERE, "selftest", "mutants.json")))
+    # run from a snapshot of /verif so that edits made while the self-test runs cannot disturb it (CrossHair re-reads source lines)
+    global SNAP
+    SNAP = tempfile.mkdtemp(prefix="verif-snap-")
+    subprocess.run(["rsync", "-a", "--exclude", ".venv", "--exclude", ".git", "--exclude", "replays", "--exclude", "evidence", "--exclude", "__pycache__", HERE + "/", SNAP + "/"], check=True)
+    os.makedirs(os.path.join(SNAP, "replays"), exist_ok=True)
     if a.seeded:
         sd = os.path.join(HERE, "seeded")
         for n in sorted(os.listdir(sd)):
@@ -76,6 +82,7 @@ def main():
             killed += ok
             print(f"{'KILLED ' if ok else 'MISSED '} {m['property']} {m['name']:<40} rc={rc} {dt:.0f}s {info[:200]}", flush=True)
     print(f"mutants killed {killed}/{len(muts)}")
+    shutil.rmtree(SNAP, ignore_errors=True)
     return 0 if killed == len(muts) else 1
 
 if __name__ == "__main__":
